@@ -12,10 +12,11 @@ A memory state is a partial byte map `σ : address → byte`; executable form: a
   shows an ellipsis row before the first row unless its window is 0, and one after the last row
   (`layout`; `none` = ellipsis row).  The two outer ellipsis rows stand for the unmapped memory
   before and after: the statement only demands the inner ones and does not forbid the outer ones;
-* `address a`: the index of the row whose window contains `a`, if there is one (`addrIndex`).
-  Reading of the statement: a row *is* a window, the row "containing the address" is the row of
-  `a / 16 * 16`, whether or not the byte at `a` itself is stored (it is then shown as absent).
-  `addrIndexStored` is the narrower reading of the pinned code (only stored addresses are found).
+* `address a` (`addrIndexStored`): if `a` is stored, the index of the row of its window
+  (`addrIndex`: the row one of whose stored ranges contains `a`); otherwise "none does".  This is
+  the reading of the statement fixed in DESIGN §6.  Observation F81: under the wider reading "a row
+  is its window" an absent address inside a shown window would select that row (`addrIndex` alone);
+  the code does not do that and the check does not demand it.
 -/
 namespace Mltwist.Spec.MemView
 
@@ -41,6 +42,10 @@ def layout : List Nat → List (Option Nat)
 def addrIndex (rows : List (Option Nat)) (a : Nat) : Option Nat :=
   let i := rows.findIdx (· == some (windowOf a))
   if i < rows.length then some i else none
+
+/-- the `address` command: the row of the window of `a` if `a` is stored, otherwise none -/
+def addrIndexStored (isStored : Bool) (rows : List (Option Nat)) (a : Nat) : Option Nat :=
+  if isStored then addrIndex rows a else none
 
 /-! ### text of a row -/
 
@@ -84,7 +89,5 @@ def windows (σ : ByteMap) : List Nat := σ.foldl (fun acc p => insertSorted (wi
 /-- the 16 cells of the row of window `w` -/
 def cells (σ : ByteMap) (w : Nat) : List (Option UInt8) := (List.range 16).map fun j => get σ (w + j)
 
-def addrIndexStored (σ : ByteMap) (rows : List (Option Nat)) (a : Nat) : Option Nat :=
-  if (get σ a).isSome then addrIndex rows a else none
 
 end Mltwist.Spec.MemView
